@@ -676,7 +676,13 @@ func c16Array(r *fw.Rec, n, ctor int) {
 				}
 			}
 		case 7:
-			if n < 260 {
+			if n < 130 && rng.Intn(4) == 0 {
+				// the array appended to itself: the argument is a snapshot of the receiver
+				a.AppendBitArray(a)
+				m = append(m, append([]bool{}, m...)...)
+				trace = append(trace, "AppendBitArray(itself)")
+				r.Tally("array_appended_to_itself")
+			} else if n < 260 {
 				on := rng.Intn(70)
 				o, om := makeArrayPair(rng, on, rng.Intn(2))
 				a.AppendBitArray(o)
@@ -768,5 +774,6 @@ func c16(c *fw.Ctx) {
 	c.Floor("matrix_sequences", int64(1040*nseq*9/10))
 	c.Floor("array_sequences", int64(402*aseq*9/10))
 	c.Floor("setrow_with_wider_row", 500)
+	c.Floor("array_appended_to_itself", 200)
 	c.Floor("parsed_with_multi_character_line_breaks", 300)
 }
